@@ -426,6 +426,9 @@ def insertion_rule(ctx, res, rule):
         if bad:
             break
         n += 1
+    stops = [o for o in outs if o["exit"] == "break" and o["value"] is not None and A.show(o["value"]).startswith("Some(")]
+    if not bad and not stops:
+        bad = "never stops at an entry (no path yields the position found): every new range is put in front"
     if bad:
         res.add(Finding(rule, fn, "search", "the search for the insertion position " + bad + ": the list is no longer sorted by start, overlapping ranges are not merged and are deleted twice", loc=T.loc(inner[0])))
     else:
